@@ -2,7 +2,16 @@ package server
 
 import (
 	"context"
+	"crypto/ecdsa"
+	"crypto/elliptic"
+	crand "crypto/rand"
+	"crypto/x509"
+	"crypto/x509/pkix"
+	"encoding/pem"
 	"fmt"
+	"math/big"
+	"os"
+	"path/filepath"
 	"time"
 
 	client "github.com/liftbridge-io/liftbridge-api/v2/go"
@@ -78,3 +87,34 @@ func readCommitLog(l commitlog.CommitLog) ([]storedMsg, error) {
 }
 
 func nb(v bool) *client.NullableBool { return &client.NullableBool{Value: v} }
+
+// testTLSFiles writes a self-signed certificate and its key into dir (generated once per process):
+// the server only sets up authorization when a TLS key pair is configured.
+var tlsPEM struct{ cert, key []byte }
+
+func testTLSFiles(dir string) (certFile, keyFile string, err error) {
+	if tlsPEM.cert == nil {
+		priv, e := ecdsa.GenerateKey(elliptic.P256(), crand.Reader)
+		if e != nil {
+			return "", "", e
+		}
+		tmpl := &x509.Certificate{SerialNumber: big.NewInt(1), Subject: pkix.Name{CommonName: "sim"}, NotBefore: time.Unix(0, 0), NotAfter: time.Date(2200, 1, 1, 0, 0, 0, 0, time.UTC),
+			KeyUsage: x509.KeyUsageDigitalSignature, ExtKeyUsage: []x509.ExtKeyUsage{x509.ExtKeyUsageServerAuth}, BasicConstraintsValid: true}
+		der, e := x509.CreateCertificate(crand.Reader, tmpl, tmpl, &priv.PublicKey, priv)
+		if e != nil {
+			return "", "", e
+		}
+		kb, e := x509.MarshalECPrivateKey(priv)
+		if e != nil {
+			return "", "", e
+		}
+		tlsPEM.cert = pem.EncodeToMemory(&pem.Block{Type: "CERTIFICATE", Bytes: der})
+		tlsPEM.key = pem.EncodeToMemory(&pem.Block{Type: "EC PRIVATE KEY", Bytes: kb})
+	}
+	certFile, keyFile = filepath.Join(dir, "sim-cert.pem"), filepath.Join(dir, "sim-key.pem")
+	if err = os.WriteFile(certFile, tlsPEM.cert, 0o644); err != nil {
+		return
+	}
+	err = os.WriteFile(keyFile, tlsPEM.key, 0o600)
+	return
+}
